@@ -3,6 +3,8 @@ range membership for every raw output (parametric intervals with wrap reasoning)
 T-function output (known finding).  DESIGN.md §4 C14."""
 from fractions import Fraction
 
+import re
+
 from .. import util
 from ..absint import tstr, mk_int, subterms
 from ..core import Anchor
@@ -376,6 +378,8 @@ def check(col, prog, tier, profile, fixture=None):
             col.violation("A2" + sfx, "%s|partner-0..=i" % fk(shuffle), shuffle.loc(), "the swap partner is not drawn from 0..=i (an exclusive bound gives only cyclic permutations, 0..len gives a biased shuffle)")
 
     shuffle = default_shuffle
+    # ---------------- A6 the generator's state transition
+    rule_lcg(col, crate, "A6" + sfx)
     # ---------------- A3
     _ranges(col, crate, impls, sfx)
 
@@ -384,7 +388,7 @@ def check(col, prog, tier, profile, fixture=None):
     if fb is None:
         raise Anchor("no Range<f64> impl")
     free_ = [f_ for f_ in crate.bodies if not f_.is_closure and f_.kind == "Fn" and f_.container is None and f_.vis != "pub" and not util.self_recursive(f_)]
-    I = util.analyser(free_)(fb)
+    I = util.analyser(free_, features=("comb", "fncall"))(fb)   # `Some(x).filter(|x| *x < end).unwrap_or(start)` is the same case split
     s_ = ("param", 1, I.names.get(1))
     start, end = ("proj", 0, s_), ("proj", 1, s_)
     for n, st in enumerate(I.final_states):
@@ -426,6 +430,81 @@ def check(col, prog, tier, profile, fixture=None):
             col.violation("A5" + sfx, key, nextraw.loc(), "output and next state are built only from wrapping add/sub/mul and bitwise operations with constants (a T-function): output bit k depends only on state bits <= k, so next(0..2^k) has period at most 2^k (next(0..4) repeats every 4 draws)")
         else:
             col.ok("A5" + sfx, nextraw.loc(), key, "the output mixes high state bits into low output bits")
+
+
+def rule_lcg(col, rand_crate, rid, consts_from=None):
+    """the state transition of the linear congruential generator is the full-period affine map on all 64 bits:
+    next_raw stores state' = state * A + C (wrapping, nothing masked or shifted away) and returns that state; the
+    instantiation(s) in use satisfy Hull-Dobell for modulus 2^64 (A = 1 mod 4, C odd).  A shorter state (a mask, a
+    narrower type) caps the period and with it every reachability claim about draws, shuffles and treap priorities."""
+    fk = util.fkey
+    col.rule(rid, "LCG: state' = state*A + C on the full 64-bit state, returned whole; A = 1 (mod 4), C odd for the instantiation in use", floor=2)
+    nr = [b for b in rand_crate.bodies if not b.is_closure and b.name == "next_raw" and "LinearCongruentialGenerator64" in b.path]
+    if len(nr) != 1:
+        raise Anchor("next_raw of the linear congruential generator not found")
+    b = nr[0]
+    adt = util.need_adt(rand_crate, "LinearCongruentialGenerator64")
+    sf = [i for i, f in enumerate(util.fields_of(adt)) if f["ty"] == "u64"]
+    priv = [m for m in rand_crate.bodies if not m.is_closure and m.kind in ("Fn", "AssocFn") and m.vis != "pub" and not util.self_recursive(m) and m.key != b.key]
+    I = util.analyser(priv)(b)
+    selfp = ("deref", ("param", 1, I.names.get(1)))
+    ok = bool(I.final_states) and len(sf) == 1
+    why = "the generator state is not a single u64 field" if len(sf) != 1 else ""
+    for st in I.final_states:
+        if not ok:
+            break
+        place = ("field", selfp, sf[0])
+        old = ("load", ("m0",), place)
+        stores = [e for e in st.event_list() if e.kind == "store" and e.place == place]
+        if len(stores) != 1:
+            ok, why = False, "%d stores of the state on one path" % len(stores)
+            break
+        v = stores[0].val
+
+        def args(t):
+            return [x for x in t[2] if not (isinstance(x, tuple) and x and x[0] == "mem")]
+
+        good = False
+        if v[0] == "call" and str(v[1]).endswith("::wrapping_add"):
+            x, y = args(v)
+            for m_, c_ in ((x, y), (y, x)):
+                if c_ == ("gparam", "C") and m_[0] == "call" and str(m_[1]).endswith("::wrapping_mul") and set(map(repr, args(m_))) == {repr(old), repr(("gparam", "A"))}:
+                    good = True
+        if not good:
+            ok, why = False, "the new state is %s, not state.wrapping_mul(A).wrapping_add(C)" % tstr(v)[:100]
+            break
+        r = util.ret_term(st)
+        if r != v and r != ("load", stores[0].state[1] if False else None, place):
+            from ..absint import strip_mem
+
+            if strip_mem(r) != strip_mem(v):
+                ok, why = False, "next_raw returns %s, not the whole new state" % tstr(r)[:100]
+    key = "%s|affine-full-width" % fk(b)
+    if ok:
+        col.ok(rid, b.loc(), key, "state' = state*A + C (wrapping) on the u64 state; the new state is returned whole")
+    else:
+        col.violation(rid, key, b.loc(), "the generator's step is not the full-width affine map: %s" % why)
+    # the constants of the instantiations in use
+    insts = set()
+    for cr in ([rand_crate] + list(consts_from or [])):
+        for al in getattr(cr, "aliases", []):
+            m_ = re.search(r"LinearCongruentialGenerator64<(\d+)(?:_?u64)?, (\d+)(?:_?u64)?>", str(al.get("ty")))
+            if m_:
+                insts.add((int(m_.group(1)), int(m_.group(2)), "type %s" % al["name"]))
+        for bd in cr.bodies:
+            for _bb, t in bd.calls():
+                if "LinearCongruentialGenerator64" in str(t["fn"].get("path")):
+                    a_ = t["fn"].get("args") or []
+                    if len(a_) >= 2 and all(str(x).isdigit() for x in a_[:2]):
+                        insts.add((int(a_[0]), int(a_[1]), "calls in %s" % cr.name))
+    if not insts:
+        col.violation(rid, "lcg|constants", b.loc(), "no instantiation of the generator found (type alias or call) to read A and C from")
+    for a_, c_, where in sorted(insts):
+        key = "lcg|hull-dobell|%d|%d" % (a_, c_)
+        if a_ % 4 == 1 and c_ % 2 == 1:
+            col.ok(rid, b.loc(), key, "A = %d = 1 (mod 4), C = %d odd (%s): period 2^64" % (a_, c_, where))
+        else:
+            col.violation(rid, "lcg|hull-dobell", b.loc(), "A = %d, C = %d (%s) do not satisfy A = 1 (mod 4) and C odd: the generator does not have full period" % (a_, c_, where))
 
 
 def _tfunction(t):
